@@ -293,3 +293,84 @@ Proof.
     { clear - F. induction (conns n) as [|c cs IH]; cbn in *; auto. destruct (fst c =? pid)%N; [discriminate | auto]. }
     congruence.
 Qed.
+
+(* ---- time: with sweeps that keep coming, a ban that is not renewed ends: entry gone (clean score), accepted again *)
+Definition no_pen (ip : N) (es : list gev) : Prop := forall amt t, ~ In (EPenalty ip amt t) es.
+
+Lemma none_stable es : forall g ip, no_pen ip es -> sc g ip = None -> sc (grun g es) ip = None.
+Proof.
+  induction es as [|e es IH]; intros g ip NP S; cbn; auto. apply IH.
+  - intros amt t I. apply (NP amt t). right; auto.
+  - destruct e; cbn.
+    + destruct (N.eq_dec ip0 ip) as [->|D]. exfalso. apply (NP amt now). left; auto.
+      apply N.eqb_neq in D. rewrite N.eqb_sym, D. auto.
+    + rewrite S. auto.
+    + auto.
+    + auto.
+Qed.
+
+Lemma expired_ban_is_swept es : forall g ip i, no_pen ip es -> sc g ip = Some i -> expiration i <> -1 ->
+  (exists now, In (ESweep now) es /\ expiration i < now) -> sc (grun g es) ip = None.
+Proof.
+  induction es as [|e es IH]; intros g ip i NP S NE [now [I L]]; cbn. destruct I.
+  assert (NP' : no_pen ip es) by (intros amt t I'; apply (NP amt t); right; auto).
+  destruct e.
+  - destruct (N.eq_dec ip0 ip) as [->|D]. exfalso. apply (NP amt now0). left; auto.
+    destruct I as [I|I]; [discriminate|]. apply (IH _ _ i); eauto.
+    cbn. apply N.eqb_neq in D. rewrite N.eqb_sym, D. auto.
+  - destruct (Z_lt_dec (expiration i) now0) as [Lt|Ge].
+    + apply none_stable; auto. cbn. rewrite S.
+      assert (negb (expiration i =? -1) = true) as -> by (apply negb_true_iff, Z.eqb_neq; auto).
+      assert (expiration i <? now0 = true) as -> by (apply Z.ltb_lt; auto). reflexivity.
+    + destruct I as [I|I]; [injection I as ->; lia|]. apply (IH _ _ i); eauto.
+      cbn. rewrite S. assert (expiration i <? now0 = false) as -> by (apply Z.ltb_ge; lia). rewrite andb_false_r. auto.
+  - destruct I as [I|I]; [discriminate|]. apply (IH _ _ i); eauto.
+  - destruct I as [I|I]; [discriminate|]. apply (IH _ _ i); eauto.
+Qed.
+
+(* the whole life of a ban in one statement: a penalty that reaches the threshold at time t bans; while every sweep comes no
+   later than t + exp the IP is refused on both paths whatever else happens (other IPs, blacklist changes, further penalties on
+   it at non-decreasing times); if it is not penalised again, the first sweep after t + exp removes the entry and every later
+   state (any events not touching the IP) accepts it again, unless blacklisted, with a clean score *)
+Theorem ban_lifecycle g ip amt t es1 es2 :
+  0 <= t -> 0 <= exp_secs g -> max_penalty <= score_of g ip + amt ->
+  let g1 := fst (add_penalty g ip amt t) in
+  let T := t + exp_secs g in
+  (Forall (respects ip T g1) es1 ->
+     banned (grun g1 es1) ip = true /\ inbound_ok (grun g1 es1) (Some ip) = false /\ outbound_ok (grun g1 es1) (Some ip) = false) /\
+  (no_pen ip es2 -> (exists now, In (ESweep now) es2 /\ T < now) ->
+     sc (grun g1 es2) ip = None /\ score_of (grun g1 es2) ip = 0 /\ banned (grun g1 es2) ip = false).
+Proof.
+  intros T0 E0 H. cbn zeta.
+  pose proof (threshold_bans g ip amt t H) as [B X]. lia.
+  set (g1 := fst (add_penalty g ip amt t)) in *.
+  assert (BU : banned_until g1 ip (t + exp_secs g)).
+  { unfold banned, expiry_of in *. destruct (sc g1 ip) as [i|] eqn:S; try discriminate. exists i. split; auto.
+    split. apply negb_true_iff, Z.eqb_neq in B; auto. lia. }
+  split.
+  - intros F. assert (BU' : banned_until (grun g1 es1) ip (t + exp_secs g)) by (apply ban_persists; auto; lia).
+    pose proof (banned_until_banned _ _ _ BU') as B'. split; auto.
+    assert (R : banned (grun g1 es1) ip || blk (grun g1 es1) ip = true) by (rewrite B'; reflexivity).
+    apply refused_everywhere in R. tauto.
+  - intros NP [now [I L]]. destruct BU as [i [S [NE LE]]].
+    assert (Ei : expiration i = t + exp_secs g) by (unfold expiry_of in X; rewrite S in X; auto).
+    assert (N0 : sc (grun g1 es2) ip = None).
+    { apply (expired_ban_is_swept es2 g1 ip i); auto. exists now. split; auto. lia. }
+    unfold score_of, banned. rewrite N0. auto.
+Qed.
+
+(* non-vacuity: penalties 60 + 40 on IP 9 at t = 1000, 1001 (ban 5 s); other traffic and sweeps every 2 s *)
+Definition timed_schedule : list gev :=
+  [EPenalty 9 60 1000; EPenalty 9 40 1001; ESweep 1002; EPenalty 8 30 1003; ESweep 1004; EBlock 7; ESweep 1006; ESweep 1008].
+Example timed_schedule_runs :
+  let g n := grun (empty_gater 5) (firstn n timed_schedule) in
+  (banned (g 2%nat) 9%N, banned (g 7%nat) 9%N, inbound_ok (g 7%nat) (Some 9%N), sc (g 8%nat) 9%N, inbound_ok (g 8%nat) (Some 9%N),
+   score_of (g 8%nat) 8%N, inbound_ok (g 8%nat) (Some 7%N)) = (true, true, false, None, true, 30, false).
+Proof. vm_compute. reflexivity. Qed.
+Example respects_nonvacuous :
+  Forall (respects 9%N 1006 (grun (empty_gater 5) (firstn 2 timed_schedule))) [ESweep 1002; EPenalty 8 30 1003; ESweep 1004; EBlock 7; ESweep 1006] /\
+  banned_until (grun (empty_gater 5) (firstn 2 timed_schedule)) 9%N 1006.
+Proof.
+  split. repeat constructor; cbn; try lia; try discriminate.
+  eexists. split. vm_compute. reflexivity. cbn. split; [discriminate | lia].
+Qed.
